@@ -394,3 +394,462 @@ Qed.
 Theorem normalize_idempotent : forall g v,
   normalize g = NOk v -> canonical v = true -> normalize (embed v) = NOk v.
 Proof. intros g v _ HC. apply normalize_embed. exact HC. Qed.
+
+(* ------------------------------------------------------------------ *)
+(** * 2. The result of [normalize] is canonical *)
+
+(* The side condition really needed: every already-canonical leaf [GCanon v] handed in through
+   interface{} is canonical.  ([]uint8, unsupported kinds and non-string maps may occur freely:
+   a nested []uint8 becomes VNil, which is canonical; the others make normalize fail.) *)
+Fixpoint canon_leaves (g : goval) {struct g} : bool :=
+  match g with
+  | GSlice _ l => forallb canon_leaves l
+  | GMap _ es => (fix go (es : list (bytes * goval)) : bool :=
+                    match es with [] => true | (_, x) :: t => canon_leaves x && go t end) es
+  | GPtr (Some g') => canon_leaves g'
+  | GStruct fs => (fix go (fs : list gfield) : bool :=
+                     match fs with
+                     | [] => true
+                     | GField _ _ _ _ _ x :: t => canon_leaves x && go t
+                     end) fs
+  | GCanon v => canonical v
+  | _ => true
+  end.
+
+Lemma canon_leaves_slice : forall b l,
+  canon_leaves (GSlice b l) = true <-> Forall (fun x => canon_leaves x = true) l.
+Proof. intros b l. cbn [canon_leaves]. rewrite forallb_forall, Forall_forall. reflexivity. Qed.
+
+Lemma canon_leaves_map : forall sk es,
+  canon_leaves (GMap sk es) = true <-> Forall (fun kv => canon_leaves (snd kv) = true) es.
+Proof.
+  intros sk es. cbn [canon_leaves].
+  induction es as [|[k x] t IH].
+  - split; [constructor | reflexivity].
+  - rewrite andb_true_iff, IH. split.
+    + intros [A B]. constructor; assumption.
+    + intros H. inversion H; subst. split; assumption.
+Qed.
+
+Lemma canon_leaves_struct : forall fs,
+  canon_leaves (GStruct fs) = true <-> Forall (fun f => canon_leaves (fval f) = true) fs.
+Proof.
+  intros fs. cbn [canon_leaves].
+  induction fs as [|[name e tag a i x] t IH].
+  - split; [constructor | reflexivity].
+  - rewrite andb_true_iff, IH. split.
+    + intros [A B]. constructor; assumption.
+    + intros H. inversion H; subst. split; assumption.
+Qed.
+
+Lemma supported_slice : forall b l,
+  supported (GSlice b l) = true <-> b = false /\ Forall (fun x => supported x = true) l.
+Proof.
+  intros [|] l; cbn [supported].
+  - split; [discriminate | intros [H _]; discriminate].
+  - rewrite forallb_forall, Forall_forall. split; [intros H; split; [reflexivity | exact H] | intros [_ H]; exact H].
+Qed.
+
+Lemma supported_map : forall sk es,
+  supported (GMap sk es) = true <-> sk = true /\ Forall (fun kv => supported (snd kv) = true) es.
+Proof.
+  intros sk es. cbn [supported]. rewrite andb_true_iff.
+  apply and_iff_compat_l.
+  induction es as [|[k x] t IH].
+  - split; [constructor | reflexivity].
+  - rewrite andb_true_iff, IH. split.
+    + intros [A B]. constructor; assumption.
+    + intros H. inversion H; subst. split; assumption.
+Qed.
+
+Lemma supported_struct : forall fs,
+  supported (GStruct fs) = true <-> Forall (fun f => supported (fval f) = true) fs.
+Proof.
+  intros fs. cbn [supported].
+  induction fs as [|[name e tag a i x] t IH].
+  - split; [constructor | reflexivity].
+  - rewrite andb_true_iff, IH. split.
+    + intros [A B]. constructor; assumption.
+    + intros H. inversion H; subst. split; assumption.
+Qed.
+
+Lemma Forall_mp : forall (A : Type) (P Q : A -> Prop) (l : list A),
+  Forall (fun x => P x -> Q x) l -> Forall P l -> Forall Q l.
+Proof.
+  intros A P Q l H1 H2. rewrite Forall_forall in *. intros x Hin. apply H1; [exact Hin | apply H2; exact Hin].
+Qed.
+
+Lemma supported_canon_leaves : forall g, supported g = true -> canon_leaves g = true.
+Proof.
+  induction g as [ | b z | b z | b | b | s | b | s n o | | g IH | fs IH | sk es IH | b l IH | | v ]
+    using goval_nind; intros H; try reflexivity.
+  - apply IH. exact H.
+  - apply canon_leaves_struct. apply supported_struct in H. exact (Forall_mp _ _ _ _ IH H).
+  - apply canon_leaves_map. apply supported_map in H. destruct H as [_ H].
+    exact (Forall_mp _ (fun kv => supported (snd kv) = true) (fun kv => canon_leaves (snd kv) = true) _ IH H).
+  - apply canon_leaves_slice. apply supported_slice in H. destruct H as [_ H].
+    exact (Forall_mp _ _ _ _ IH H).
+  - exact H.
+Qed.
+
+(* [NC x]: whatever x normalises to is canonical *)
+Definition NC (x : goval) : Prop := forall v, normalize x = NOk v -> canonical v = true.
+
+Lemma forallb_rev : forall (A : Type) (f : A -> bool) (l : list A),
+  forallb f l = true -> forallb f (rev l) = true.
+Proof.
+  intros A f l H. rewrite forallb_forall in *. intros x Hin. apply H. apply in_rev. exact Hin.
+Qed.
+
+Lemma slice_loop_canonical : forall l acc v,
+  Forall NC l -> forallb canonical acc = true -> slice_loop l acc = NOk v -> canonical v = true.
+Proof.
+  induction l as [|x t IH]; intros acc v HN HA HL.
+  - cbn [slice_loop] in HL. inversion HL; subst. rewrite canonical_arr. apply forallb_rev. exact HA.
+  - inversion HN as [|? ? N1 N2]; subst. cbn [slice_loop] in HL.
+    destruct (normalize x) as [w| |] eqn:E; [| discriminate |].
+    + apply (IH (w :: acc) v N2); [|exact HL]. cbn [forallb]. rewrite (N1 w E). exact HA.
+    + apply (IH (VNil :: acc) v N2); [|exact HL]. exact HA.
+Qed.
+
+Lemma map_loop_canonical : forall es acc v,
+  Forall (fun kv => NC (snd kv)) es -> keys_sorted acc = true -> obj_canon acc = true ->
+  map_loop es acc = NOk v -> canonical v = true.
+Proof.
+  induction es as [|[k x] t IH]; intros acc v HN HS HO HL.
+  - cbn [map_loop] in HL. inversion HL; subst. rewrite canonical_obj, HS, HO. reflexivity.
+  - inversion HN as [|? ? N1 N2]; subst. simpl in N1. cbn [map_loop] in HL.
+    destruct (normalize x) as [w| |] eqn:E; [| discriminate |].
+    + apply (IH (obj_set k w acc) v N2); [apply obj_set_sorted; exact HS | | exact HL].
+      apply obj_set_canon; [exact HO | exact (N1 w E)].
+    + apply (IH (obj_set k VNil acc) v N2); [apply obj_set_sorted; exact HS | | exact HL].
+      apply obj_set_canon; [exact HO | reflexivity].
+Qed.
+
+Lemma struct_loop_canonical : forall fs acc v,
+  Forall (fun f => NC (fval f)) fs -> keys_sorted acc = true -> obj_canon acc = true ->
+  struct_loop fs acc = NOk v -> canonical v = true.
+Proof.
+  induction fs as [|[name e tag a i x] t IH]; intros acc v HN HS HO HL.
+  - cbn [struct_loop] in HL. inversion HL; subst. rewrite canonical_obj, HS, HO. reflexivity.
+  - inversion HN as [|? ? N1 N2]; subst. simpl in N1. rewrite struct_loop_cons in HL.
+    assert (HSET : forall w, canonical w = true ->
+              struct_loop t (obj_set (field_key name tag) w acc) = NOk v -> canonical v = true).
+    { intros w Hw HL'. apply (IH _ v N2) in HL'; [exact HL' | apply obj_set_sorted; exact HS |].
+      apply obj_set_canon; assumption. }
+    destruct (negb e); [exact (IH acc v N2 HS HO HL)|].
+    destruct (tag_omitempty tag && is_empty_value i x); [exact (IH acc v N2 HS HO HL)|].
+    destruct (normalize x) as [w| |] eqn:E; [| discriminate | exact (HSET VNil eq_refl HL)].
+    pose proof (N1 w E) as Hw.
+    destruct a; [|exact (HSET w Hw HL)].
+    destruct w; try exact (HSET _ Hw HL).
+    rewrite canonical_obj in Hw. apply andb_true_iff in Hw. destruct Hw as [Hw1 Hw2].
+    apply (IH _ v N2) in HL; [exact HL | apply merge_obj_sorted; exact HS |].
+    apply merge_obj_canon; assumption.
+Qed.
+
+(* strongest form: only the GCanon leaves matter *)
+Theorem normalize_canonical_leaves : forall g v,
+  canon_leaves g = true -> normalize g = NOk v -> canonical v = true.
+Proof.
+  intros g. 
+  induction g as [ | b z | b z | b | b | s | b | s n o | | g IH | fs IH | sk es IH | b l IH | | w ]
+    using goval_nind; intros v HC HN;
+    try (cbn [normalize] in HN; inversion HN; subst; reflexivity).
+  - exact (IH v HC HN).
+  - rewrite normalize_struct_loop in HN. apply canon_leaves_struct in HC.
+    refine (struct_loop_canonical fs [] v _ eq_refl eq_refl HN).
+    rewrite Forall_forall in *. intros f Hin w Hw. exact (IH f Hin w (HC f Hin) Hw).
+  - destruct sk; [|discriminate]. rewrite normalize_map_loop in HN. apply canon_leaves_map in HC.
+    refine (map_loop_canonical es [] v _ eq_refl eq_refl HN).
+    rewrite Forall_forall in *. intros kv Hin w Hw. exact (IH kv Hin w (HC kv Hin) Hw).
+  - destruct b; [discriminate|]. rewrite normalize_slice_loop in HN. apply canon_leaves_slice in HC.
+    refine (slice_loop_canonical l [] v _ eq_refl HN).
+    rewrite Forall_forall in *. intros x Hin w Hw. exact (IH x Hin w (HC x Hin) Hw).
+  - cbn [normalize] in HN. inversion HN; subst. exact HC.
+Qed.
+
+Theorem normalize_canonical : forall g v,
+  supported g = true -> normalize g = NOk v -> canonical v = true.
+Proof.
+  intros g v HS. apply normalize_canonical_leaves. apply supported_canon_leaves. exact HS.
+Qed.
+
+(* the side condition cannot be dropped: a non-canonical value passed through interface{} *)
+Example normalize_canonical_needs_leaves :
+  let g := GCanon (VObj [([98%N], VInt 1); ([97%N], VInt 2)]) in
+  exists v, normalize g = NOk v /\ canonical v = false.
+Proof. eexists. split; reflexivity. Qed.
+
+(* ... while nested []uint8 (not [supported]) still yields a canonical value: VNil *)
+Example normalize_nested_bytes :
+  let g := GMap true [([97%N], GSlice true [GUint 8 1]); ([98%N], GSlice false [GSlice true []])] in
+  supported g = false /\ canon_leaves g = true /\
+  normalize g = NOk (VObj [([97%N], VNil); ([98%N], VArr [VNil])]).
+Proof. repeat split; reflexivity. Qed.
+
+(* ------------------------------------------------------------------ *)
+(** * 3. Totality on supported input, and the error cases *)
+
+Definition NS (x : goval) : Prop := exists v, normalize x = NOk v.
+
+Lemma slice_loop_total : forall l acc, Forall NS l -> exists v, slice_loop l acc = NOk v.
+Proof.
+  induction l as [|x t IH]; intros acc H.
+  - eexists. reflexivity.
+  - inversion H as [|? ? [w Hw] H2]; subst. cbn [slice_loop]. rewrite Hw. apply IH. exact H2.
+Qed.
+
+Lemma map_loop_total : forall es acc, Forall (fun kv => NS (snd kv)) es -> exists v, map_loop es acc = NOk v.
+Proof.
+  induction es as [|[k x] t IH]; intros acc H.
+  - eexists. reflexivity.
+  - inversion H as [|? ? [w Hw] H2]; subst. simpl in Hw. cbn [map_loop]. rewrite Hw. apply IH. exact H2.
+Qed.
+
+Lemma struct_loop_total : forall fs acc, Forall (fun f => NS (fval f)) fs -> exists v, struct_loop fs acc = NOk v.
+Proof.
+  induction fs as [|[name e tag a i x] t IH]; intros acc H.
+  - eexists. reflexivity.
+  - inversion H as [|? ? [w Hw] H2]; subst. simpl in Hw. rewrite struct_loop_cons. rewrite Hw.
+    destruct (negb e); [apply IH; exact H2|].
+    destruct (tag_omitempty tag && is_empty_value i x); [apply IH; exact H2|].
+    destruct a; [destruct w|]; apply IH; exact H2.
+Qed.
+
+Theorem normalize_supported : forall g, supported g = true -> exists v, normalize g = NOk v.
+Proof.
+  induction g as [ | b z | b z | b | b | s | b | s n o | | g IH | fs IH | sk es IH | b l IH | | w ]
+    using goval_nind; intros HS; try (eexists; reflexivity).
+  - exact (IH HS).
+  - rewrite normalize_struct_loop. apply struct_loop_total. apply supported_struct in HS.
+    exact (Forall_mp _ _ _ _ IH HS).
+  - apply supported_map in HS. destruct HS as [-> HS]. rewrite normalize_map_loop.
+    apply map_loop_total.
+    exact (Forall_mp _ (fun kv => supported (snd kv) = true) (fun kv => NS (snd kv)) _ IH HS).
+  - apply supported_slice in HS. destruct HS as [-> HS]. rewrite normalize_slice_loop.
+    apply slice_loop_total. exact (Forall_mp _ _ _ _ IH HS).
+  - discriminate.
+Qed.
+
+Theorem normalize_unsupported : normalize GUnsupported = NErr.
+Proof. reflexivity. Qed.
+
+Theorem normalize_map_nonstring_keys : forall es, normalize (GMap false es) = NErr.
+Proof. reflexivity. Qed.
+
+Theorem normalize_bytes_slice : forall l, normalize (GSlice true l) = NBytes.
+Proof. reflexivity. Qed.
+
+Corollary normalize_fail_not_supported : forall g,
+  normalize g = NErr \/ normalize g = NBytes -> supported g = false.
+Proof.
+  intros g H. destruct (supported g) eqn:E; [|reflexivity].
+  destruct (normalize_supported g E) as [v Hv]. rewrite Hv in H. destruct H; discriminate.
+Qed.
+
+(* ------------------------------------------------------------------ *)
+(** * 4. Integer and float widening; other scalars kept *)
+
+Theorem normalize_scalars :
+  (forall b z, normalize (GInt b z) = NOk (VInt z)) /\
+  (forall b z, normalize (GUint b z) = NOk (VUint z)) /\
+  (forall b, normalize (GFloat32 b) = NOk (VFloat b)) /\
+  (forall b, normalize (GFloat64 b) = NOk (VFloat b)) /\
+  (forall s, normalize (GString s) = NOk (VStr s)) /\
+  (forall b, normalize (GBool b) = NOk (VBool b)) /\
+  (forall s n o, normalize (GTime s n o) = NOk (VTime s n o)) /\
+  normalize GNil = NOk VNil /\
+  (forall v, normalize (GCanon v) = NOk v).
+Proof. repeat split. Qed.
+
+(* ------------------------------------------------------------------ *)
+(** * 5. Pointers are followed *)
+
+Theorem normalize_ptr : forall g, normalize (GPtr (Some g)) = normalize g.
+Proof. reflexivity. Qed.
+
+Theorem normalize_ptr_nil : normalize (GPtr None) = NOk VNil.
+Proof. reflexivity. Qed.
+
+Theorem normalize_ptr_chain : forall n g,
+  normalize (Nat.iter n (fun x => GPtr (Some x)) g) = normalize g.
+Proof.
+  induction n as [|n IH]; intros g; [reflexivity|].
+  cbn [Nat.iter nat_rect]. rewrite normalize_ptr. apply IH.
+Qed.
+
+(* ------------------------------------------------------------------ *)
+(** * 6. Struct tags *)
+
+Theorem normalize_struct_field_rename : forall name tag x v,
+  normalize x = NOk v -> tag_name tag <> [] -> tag_omitempty tag = false ->
+  normalize (GStruct [GField name true tag false false x]) = NOk (VObj [(tag_name tag, v)]).
+Proof.
+  intros name tag x v HN HT HO. rewrite normalize_struct_loop, struct_loop_cons.
+  rewrite HO, HN. cbn [negb andb struct_loop obj_set].
+  unfold field_key. destruct (tag_name tag); [contradiction HT; reflexivity | reflexivity].
+Qed.
+
+(* without a tag name the Go field name is used *)
+Theorem normalize_struct_field_untagged : forall name tag x v,
+  normalize x = NOk v -> tag_name tag = [] -> tag_omitempty tag = false ->
+  normalize (GStruct [GField name true tag false false x]) = NOk (VObj [(name, v)]).
+Proof.
+  intros name tag x v HN HT HO. rewrite normalize_struct_loop, struct_loop_cons.
+  rewrite HO, HN. cbn [negb andb struct_loop obj_set].
+  unfold field_key. rewrite HT. reflexivity.
+Qed.
+
+Lemma struct_loop_unexported : forall name tag a i x rest acc,
+  struct_loop (GField name false tag a i x :: rest) acc = struct_loop rest acc.
+Proof. reflexivity. Qed.
+
+Theorem normalize_struct_unexported : forall name tag a i x rest,
+  normalize (GStruct (GField name false tag a i x :: rest)) = normalize (GStruct rest).
+Proof. intros. rewrite !normalize_struct_loop. apply struct_loop_unexported. Qed.
+
+Lemma struct_loop_omitempty : forall name tag a i x rest acc,
+  tag_omitempty tag = true -> is_empty_value i x = true ->
+  struct_loop (GField name true tag a i x :: rest) acc = struct_loop rest acc.
+Proof. intros name tag a i x rest acc HO HE. rewrite struct_loop_cons, HO, HE. reflexivity. Qed.
+
+Theorem normalize_struct_omitempty : forall name tag a i x rest,
+  tag_omitempty tag = true -> is_empty_value i x = true ->
+  normalize (GStruct (GField name true tag a i x :: rest)) = normalize (GStruct rest).
+Proof. intros. rewrite !normalize_struct_loop. apply struct_loop_omitempty; assumption. Qed.
+
+Theorem normalize_struct_embedded : forall name tag x o rest acc,
+  normalize x = NOk (VObj o) -> tag_omitempty tag = false ->
+  struct_loop (GField name true tag true false x :: rest) acc = struct_loop rest (merge_obj acc o).
+Proof. intros name tag x o rest acc HN HO. rewrite struct_loop_cons, HO, HN. reflexivity. Qed.
+
+(* an ordinary (exported, kept, non-embedded) field is stored under its key *)
+Theorem struct_loop_field : forall name tag i x v rest acc,
+  normalize x = NOk v -> tag_omitempty tag && is_empty_value i x = false ->
+  struct_loop (GField name true tag false i x :: rest) acc =
+  struct_loop rest (obj_set (field_key name tag) v acc).
+Proof. intros name tag i x v rest acc HN HO. rewrite struct_loop_cons, HO, HN. reflexivity. Qed.
+
+(* ------------------------------------------------------------------ *)
+(** * 7. Documents *)
+
+Theorem doc_set_go_unsupported : forall name g d, normalize g = NErr -> doc_set_go name g d = d.
+Proof. intros name g d H. unfold doc_set_go. rewrite H. reflexivity. Qed.
+
+Theorem doc_set_go_bytes : forall name g d, normalize g = NBytes -> doc_set_go name g d = d.
+Proof. intros name g d H. unfold doc_set_go. rewrite H. reflexivity. Qed.
+
+Theorem doc_set_go_ok : forall name g v d,
+  normalize g = NOk v -> doc_set_go name g d = doc_set name v d.
+Proof. intros name g v d H. unfold doc_set_go. rewrite H. reflexivity. Qed.
+
+Theorem new_document_of_non_map : forall g v,
+  normalize g = NOk v -> (forall o, v <> VObj o) -> new_document_of g = None.
+Proof.
+  intros g v H HV. unfold new_document_of. rewrite H.
+  destruct v; try reflexivity. exfalso. exact (HV l eq_refl).
+Qed.
+
+Theorem new_document_of_map : forall g o, normalize g = NOk (VObj o) -> new_document_of g = Some o.
+Proof. intros g o H. unfold new_document_of. rewrite H. reflexivity. Qed.
+
+(* ------------------------------------------------------------------ *)
+(** * 8. Non-vacuity *)
+
+Module Examples.
+  Local Open Scope N_scope.
+  Definition s_Name : bytes := [78; 97; 109; 101].          (* "Name" *)
+  Definition s_name : bytes := [110; 97; 109; 101].         (* "name" *)
+  Definition s_Age : bytes := [65; 103; 101].               (* "Age" *)
+  Definition s_age_omit : bytes := [97; 103; 101; 44] ++ omitempty_s.  (* "age,omitempty" *)
+  Definition s_age : bytes := [97; 103; 101].               (* "age" *)
+  Definition s_Base : bytes := [66; 97; 115; 101].          (* "Base" *)
+  Definition s_Id : bytes := [73; 100].                     (* "Id" *)
+  Definition s_id : bytes := [105; 100].                    (* "id" *)
+  Definition s_secret : bytes := [115; 101; 99; 114; 101; 116]. (* "secret" *)
+  Definition s_Score : bytes := [83; 99; 111; 114; 101].    (* "Score" *)
+  Definition s_bob : bytes := [98; 111; 98].                (* "bob" *)
+  Local Open Scope Z_scope.
+
+  Definition base : goval :=
+    GStruct [GField s_Id true s_id false false (GUint 32 7);
+             GField s_secret false [] false false GUnsupported].
+
+  Definition person (age : Z) : goval :=
+    GStruct [GField s_Name true s_name false false (GString s_bob);
+             GField s_Age true s_age_omit false false (GInt 0 age);
+             GField s_Base true [] true false base;
+             GField s_Score true [] false false
+               (GPtr (Some (GPtr (Some (GFloat32 4609434218613702656)))))].
+
+  (* renamed field, omitted empty field, flattened embedded struct (its unexported field skipped),
+     pointer-to-pointer followed, float32 widened; keys come out sorted *)
+  Example normalize_person_0 :
+    normalize (person 0) =
+    NOk (VObj [(s_Score, VFloat 4609434218613702656); (s_id, VUint 7); (s_name, VStr s_bob)]).
+  Proof. vm_compute. reflexivity. Qed.
+
+  (* omitempty keeps a non-empty value, under the tag name *)
+  Example normalize_person_41 :
+    normalize (person 41) =
+    NOk (VObj [(s_Score, VFloat 4609434218613702656); (s_age, VInt 41); (s_id, VUint 7);
+               (s_name, VStr s_bob)]).
+  Proof. vm_compute. reflexivity. Qed.
+
+  Example person_supported : supported (person 0) = false /\ canon_leaves (person 0) = true.
+  Proof. split; vm_compute; reflexivity. Qed.
+
+  (* the result is a fixed point *)
+  Example normalize_person_idem :
+    forall v, normalize (person 41) = NOk v -> normalize (embed v) = NOk v.
+  Proof.
+    intros v H. apply (normalize_idempotent _ _ H).
+    apply (normalize_canonical_leaves (person 41)); [vm_compute; reflexivity | exact H].
+  Qed.
+
+  Example new_document_of_person :
+    new_document_of (person 0) =
+    Some [(s_Score, VFloat 4609434218613702656); (s_id, VUint 7); (s_name, VStr s_bob)].
+  Proof. vm_compute. reflexivity. Qed.
+
+  Example new_document_of_scalar : new_document_of (GInt 8 3) = None.
+  Proof. reflexivity. Qed.
+
+  (* a chan-typed exported field makes the whole struct fail; Set then leaves the document alone *)
+  Example doc_set_go_chan : forall d,
+    doc_set_go s_name (GStruct [GField s_Name true [] false false GUnsupported]) d = d.
+  Proof. intros d. apply doc_set_go_unsupported. reflexivity. Qed.
+End Examples.
+
+(* ------------------------------------------------------------------ *)
+Print Assumptions normalize_embed.
+Print Assumptions normalize_idempotent.
+Print Assumptions obj_set_sorted.
+Print Assumptions obj_of_list_sorted.
+Print Assumptions normalize_canonical.
+Print Assumptions normalize_canonical_leaves.
+Print Assumptions normalize_supported.
+Print Assumptions normalize_unsupported.
+Print Assumptions normalize_map_nonstring_keys.
+Print Assumptions normalize_bytes_slice.
+Print Assumptions normalize_fail_not_supported.
+Print Assumptions normalize_scalars.
+Print Assumptions normalize_ptr.
+Print Assumptions normalize_ptr_nil.
+Print Assumptions normalize_ptr_chain.
+Print Assumptions normalize_struct_loop.
+Print Assumptions normalize_struct_field_rename.
+Print Assumptions normalize_struct_field_untagged.
+Print Assumptions normalize_struct_unexported.
+Print Assumptions normalize_struct_omitempty.
+Print Assumptions normalize_struct_embedded.
+Print Assumptions struct_loop_field.
+Print Assumptions doc_set_go_unsupported.
+Print Assumptions doc_set_go_bytes.
+Print Assumptions doc_set_go_ok.
+Print Assumptions new_document_of_non_map.
+Print Assumptions new_document_of_map.
+Print Assumptions Examples.normalize_person_0.
+Print Assumptions Examples.normalize_person_41.
+Print Assumptions Examples.normalize_person_idem.
